@@ -149,6 +149,15 @@ def _gen_faults(r, plan, paths, in_rel, out_rel, single):
             f = {"kind": "enospc", "path": plan["dump"], "at": r.randint(0, 40), "dump": True}
         if f is not None:
             plan["faults"].append(f)
+    # a blocker file in the output tree wins over anything generated below it
+    for f in plan["faults"]:
+        if f["kind"] == "out_parent_is_file":
+            b = f["blocker"]
+            plan["xdisk"]["dirs"] = [d for d in plan["xdisk"]["dirs"] if not (d == b or d.startswith(b + "/"))]
+            plan["xdisk"]["files"] = {k: v for k, v in plan["xdisk"]["files"].items() if not k.startswith(b + "/")}
+    for d in list(plan["xdisk"]["dirs"]):
+        if d in plan["xdisk"]["files"]:
+            del plan["xdisk"]["files"][d]
 
 
 # ---------------------------------------------------------------------------
@@ -422,6 +431,8 @@ def check(plan):
                 status[p] = "failed"
                 if progress[p] > 0:
                     probes["failed_with_progress"] += 1
+                    if texts[p] is not None and progress[p] >= _nlines(texts[p]):
+                        probes["late_write_fault"] += 1      # the failure surfaced at flush/close, after every line was handed
                 else:
                     probes["failed_no_progress"] += 1
                 # oracle 6: absent, empty or a byte-prefix of what was handed to the writer,
